@@ -36,6 +36,11 @@ func TestMain(m *testing.M) {
 func runProp[C any](t *testing.T, id string, gen func(*rapid.T) *C, oracle func(*C) string) {
 	rapid.Check(t, func(rt *rapid.T) {
 		c := gen(rt)
+		if MemBudgetExhausted() {
+			// generated but not evaluated: counted, and reported by the driver
+			S(id).MemSkip()
+			return
+		}
 		S(id).Eval()
 		if msg := oracle(c); msg != "" {
 			RecordFail(id, c, msg)
